@@ -1,6 +1,7 @@
 package pki
 
 import (
+	"bytes"
 	"crypto/rand"
 	"fmt"
 	"io"
@@ -53,6 +54,10 @@ type SignerSpec struct {
 	ExtraSignedAttrs  []Attr
 	KeepAttrOrder     bool // keep contentType, signingTime, messageDigest, extras in that order instead of the DER SET OF order
 	DuplicateAttrs    bool // emit contentType and messageDigest twice (second copies first)
+	// SignOverMessageDigest: the signature is a valid one by the signing key over the DER-sorted attribute set
+	// {contentType, signingTime, messageDigest = this value} (a signature lifted from ANOTHER content), while the emitted
+	// attributes are contentType, signingTime, messageDigest(of the emitted content), messageDigest(this value), in that order.
+	SignOverMessageDigest []byte
 
 	SigAlg            *SigAlg // default: scheme of the key spec with hash DigestAlg
 	SignatureOverride []byte
@@ -218,6 +223,17 @@ func buildSignerInfo(sd *SignedDataSpec, s *SignerSpec) ([]byte, string, error) 
 		}
 		set := signedAttrsSet(attrs, s.KeepAttrOrder)
 		toSign = set
+		if s.SignOverMessageDigest != nil {
+			lifted := Attr{OIDMsgDigest, [][]byte{OctetString(s.SignOverMessageDigest)}}.der()
+			var other [][]byte
+			for _, a := range attrs {
+				if !bytes.Equal(a, md) {
+					other = append(other, a)
+				}
+			}
+			toSign = signedAttrsSet(append(append([][]byte{}, other...), lifted), false)
+			set = signedAttrsSet(append(append([][]byte{}, attrs...), lifted), true)
+		}
 		signedAttrs = Retag(0xa0, set)
 	}
 
